@@ -62,6 +62,19 @@ theorem rolling_eq_windowed (n : Nat) (dur : Int) (pn : Nat) (pdur : Int) (psize
   intro k _
   exact rolling_getR k n dur pn pdur psize mh hn hw emits now h0 (fun k t d h => hle _ h)
 
+/-- ROLLING SUMS, ANY ORDER: the same for callbacks delivered in ANY timestamp order (completions stamped late — by less
+    or by more than a window —, set-back clocks, events before the start), as long as the read is not older than what
+    was delivered: only `0 ≤ now` and "every stamp ≤ now" are needed -/
+theorem rolling_eq_windowed_any_order (n : Nat) (dur : Int) (pn : Nat) (pdur : Int) (psize : Nat) (mh : Int) (hn : 0 < n)
+    (hw : 0 < tdiv dur n) (emits : List Emit) (now : Int) (h0 : 0 ≤ now) (hle : ∀ e ∈ emits, emitTime e ≤ now) :
+    let a := (All.new n dur pn pdur psize mh).feed emits
+    (a.run.sums now).2 = kinds.map (fun k => rolling n (tdiv dur n) (histOf emits) k now) := by
+  intro a
+  rw [sums_snd]
+  apply List.map_congr_left
+  intro k _
+  exact rolling_getR k n dur pn pdur psize mh hn hw emits now h0 (fun k t d h => hle _ h)
+
 /-- ERROR PERCENTAGE: the double the code computes is the correctly rounded quotient (failures+timeouts) /
     (successes+failures+timeouts), and 0 when there were no attempts (counts below 2^53) -/
 theorem error_percentage_correct (s f t : Int) (hs : 0 ≤ s) (hf : 0 ≤ f) (ht : 0 ≤ t) (hb : s + f + t ≤ 9007199254740992) :
